@@ -17,6 +17,7 @@ class Runtime:
         self.hooks = []        # callables(task) run inside compute (C18: logging / run-info emitters)
         self.salt_seq = False  # C07: embed the run's sequence number into the value
         self.gen_messages = False  # C18: generator bodies log while being consumed
+        self.special = {}          # C05: slug -> 'mistyped' | 'unserializable' | 'gen-mid' | 'mid' (consumed once)
         self.mock_values = {}      # C19: values returned by the source tasks that stand in for mocks in the real chain
         self.classes = {}
 
@@ -25,6 +26,7 @@ class Runtime:
         self.seq = 0
         self.fail.clear()
         self.hooks.clear()
+        self.special.clear()
         self.salt_seq = False
         self.gen_messages = False
 
@@ -111,6 +113,33 @@ def digest_of(value):
 def encode(kind, d, task):
     import numpy as np
     import pandas as pd
+    special = RT.special.pop(task.slugname, None) if task is not None else None
+    if special == 'mistyped':
+        return {'not': 'the declared type'} if kind != 'dict' else ['not', 'a', 'dict']
+    if special == 'unserializable':
+        if kind == 'dict':
+            return {'v': d, 'bad': {1, 2}}
+        if kind == 'list':
+            return [d, {1, 2}]
+        if kind in ('generator', 'lazy'):
+            return (x for x in [d, {1, 2}])
+    if special == 'gen-mid' and kind in ('generator', 'lazy'):
+        def broken():
+            yield d
+            raise InjectedFault('generator body failed after one item')
+        return broken()
+    if special == 'mid' and kind in ('dir', 'continues'):
+        data = task.get_data_object()
+        (data.dir / 'v.txt').write_text(d)
+        (data.dir / 'progress').write_text('first')
+        raise InjectedFault('failed after writing part of the work directory')
+    if kind == 'continues':
+        data = task.get_data_object()
+        resumed = (data.dir / 'progress').exists()
+        (data.dir / 'progress').write_text('resumed' if resumed else 'first')
+        (data.dir / 'v.txt').write_text(d)
+        data.finished()
+        return data
     if kind == 'dict':
         return {'v': d}
     if kind == 'list':
